@@ -47,7 +47,7 @@ def per_worker(x):
 def net_restr(case, w):
     if not case.get("suite"):
         return None
-    return case["suite"]["nets"].get(w.split(".")[-1], {})
+    return gl.net_restrictions(case["suite"], w)
 
 
 def lean_bridges(x):
@@ -134,8 +134,8 @@ def check_lazy(ctx, case, x_eager, n_orders):
         ctx.count("lazy." + status.split(":")[0] + (".partial" if partial else ".complete"))
         if graph is None:
             if status.startswith("error"):
-                dbl = case.get("suite") and any(sum(1 for o in t["objs"].values() if o["get"] and not o["get_state"]) >= 2
-                                                for t in case["suite"]["tests"])
+                dbl = case.get("suite") and not case["suite"].get("path") and any(
+                    sum(1 for o in t["objs"].values() if o["get"] and not o["get_state"]) >= 2 for t in case["suite"]["tests"])
                 ctx.violate("double-clone" if dbl else "lazy-parse-raises", f"lazy expansion raised {status[:300]}", lc)
             continue
         xl = gl.extract(graph)
@@ -196,8 +196,8 @@ def run_cases(ctx, cases, n_orders=2):
         ctx.count(f"workers={len(case['nets'])}")
         if graph is None:
             if status.startswith("error"):
-                dbl = case.get("suite") and any(sum(1 for o in t["objs"].values() if o["get"] and not o["get_state"]) >= 2
-                                                for t in case["suite"]["tests"])
+                dbl = case.get("suite") and not case["suite"].get("path") and any(
+                    sum(1 for o in t["objs"].values() if o["get"] and not o["get_state"]) >= 2 for t in case["suite"]["tests"])
                 if status.startswith("error:ValueError:Detected") or status.startswith("error:AssertionError"):
                     ctx.violate("double-clone" if dbl else "parser-rejects-own-graph", status[:300], dict(case))
                 else:
@@ -243,7 +243,7 @@ def correspondence(ctx):
                 ctx.notes.append(f"time budget: stopped after {i} of {len(cases)} cases")
                 break
             gl.run_attributed(ctx, case, lambda c, k: run_cases(c, [k], n_orders))
-        ship = [c06.shipped_case(2), c06.shipped_case(0)] if not thorough else [c06.shipped_case(i) for i in (0, 2, 4, 6)]
+        ship = [c06.shipped_case(i, with_suite=True) for i in ((2, 0) if not thorough else (0, 2, 4, 6, 7))]
         for sc in ship:
             if ctx.remaining(budget + 60) < 0:
                 ctx.notes.append("time budget: shipped-suite cases cut short")
@@ -266,9 +266,7 @@ def search(ctx, reason):
 
 
 def replay(ctx, payload):
-    case = dict(payload["case"])
-    if case.get("suite"):
-        case["suite"] = gl.suite_from_json(case["suite"])
+    case = gl.load_case(payload["case"])
     order = case.pop("order", None)
     try:
         if case.get("mode") == "lazy" and order:
